@@ -487,9 +487,18 @@ def recourse_filter(ctx):
         r8.fail('anchor/get_item', 'src/compilation_scope.rs', 'get_item not found')
         r8.need(4)
         return
-    b = bs[0]
+    g = bs[0]
     found = 0
-    for bb, t in b.calls():
+    # the test may sit in get_item itself or in a private predicate of the scope that get_item calls
+    places = [(g, None)]
+    for hbb, ht in g.calls():
+        hn = strip_generics(ht.get('callee') or '')
+        if hn.startswith('compilation_scope::CompilationScope::') and hn != g.nid:
+            for h in mir.find(hn):
+                if h.kind == 'fn' and (h, (hbb, ht)) not in places:
+                    places.append((h, (hbb, ht)))
+    for b, via in places:
+      for bb, t in b.calls():
         nm = strip_generics(t.get('decl') or t.get('callee') or '')
         if nm not in ('std::iter::Iterator::any', 'std::iter::Iterator::all') or len(t['args']) != 2 or t.get('target') is None:
             continue
@@ -510,13 +519,53 @@ def recourse_filter(ctx):
             rs = absint.returns(mir, cb, {}, lambda tm, vals, env: absint.UNKNOWN, field_oracle=foracle)
             answers[ful] = next(iter(rs)) if len(rs) == 1 and isinstance(next(iter(rs)), bool) else None
         # (2) on which value of the any / all result can the loop go on without pushing the overload?
-        pushes = {pb for pb, pt in b.calls() if strip_generics(pt.get('callee') or pt.get('decl') or '').endswith('Vec::push')}
-        heads = [h for h in b.dominators().get(bb, ()) if h != bb and h in b.reachable(t['target']) and b.term(h)['k'] == 'call' and strip_generics(b.term(h).get('decl') or b.term(h).get('callee') or '').endswith('::next')]
-        hide_on = None
-        if heads:
-            h = max(heads, key=lambda x: len(b.dominators().get(x, ())))
-            pol = mirq.bool_polarity(b, t['dest']['l'], bb, None, h, avoid=pushes)
-            hide_on = pol
+        def hide_polarity(body, call_bb, dest_local):
+            pushes = {pb for pb, pt in body.calls() if strip_generics(pt.get('callee') or pt.get('decl') or '').endswith('Vec::push')}
+            tgt = body.term(call_bb).get('target')
+            heads = [h for h in body.dominators().get(call_bb, ()) if h != call_bb and tgt is not None and h in body.reachable(tgt) and body.term(h)['k'] == 'call' and strip_generics(body.term(h).get('decl') or body.term(h).get('callee') or '').endswith('::next')]
+            if not heads:
+                return None
+            h = max(heads, key=lambda x: len(body.dominators().get(x, ())))
+            return mirq.bool_polarity(body, dest_local, call_bb, None, h, avoid=pushes)
+        if via is None:
+            hide_on = hide_polarity(b, bb, t['dest']['l'])
+        else:
+            # the predicate's answer for each value of the any / all result (its other conjuncts taken as true), then the
+            # polarity of the predicate's result in get_item
+            hbb, ht = via
+            outer = hide_polarity(g, hbb, ht['dest']['l'])
+            ans = {}
+            for v_ in (True, False):
+                def horacle(tm, vals, env, v_=v_):
+                    n2 = strip_generics(tm.get('decl') or tm.get('callee') or '')
+                    if n2 in ('std::iter::Iterator::any', 'std::iter::Iterator::all'):
+                        return v_
+                    if 'PartialEq' in n2 and n2.endswith('::eq'):
+                        return True
+                    if 'PartialEq' in n2 and n2.endswith('::ne'):
+                        return False
+                    return absint.UNKNOWN
+                # what the predicate returns on the paths through the any / all test (other arms of the predicate, e.g. a
+                # variant that is never a forward declaration, answer without looking at the requirements)
+                got = set()
+
+                def ev(kind, ebb, idx, node, env, R_):
+                    if kind == 'term' and node['k'] == 'return':
+                        got.add(repr(R_.get(env, {'l': 0, 'p': []})))
+                        return 'ret'
+                    return None
+                R_ = absint.region_with_std_oracle(mir, b, horacle, ev)
+                absint.CURRENT.append(R_)
+                try:
+                    R_.run(t['target'], R_.assign({}, t['dest'], v_))
+                finally:
+                    absint.CURRENT.pop()
+                bools = {x == 'True' for x in got if x in ('True', 'False')}
+                ans[v_] = next(iter(bools)) if len(bools) == 1 and len(got) == 1 else None
+            hide_on = None
+            if outer is not None and ans[True] is not None and ans[False] is not None and ans[True] != ans[False]:
+                # hidden when predicate == outer; predicate == ans[v]
+                hide_on = True if ans[True] == outer else False
         ok_all = answers[True] is not None and answers[False] is not None and hide_on is not None
         table = {}
         if ok_all:
@@ -530,8 +579,8 @@ def recourse_filter(ctx):
             ok = ok_all and got == w
             r8.inst({'overload_with': label, 'hidden': got, 'expected': w}, ok=ok, kind=(bb, label))
             if not ok:
-                r8.fail('get_item/recourse-filter/%s' % label.replace(' ', '-'), mirq.site(b, bb), 'inside the body of a function, a parent overload of the same name and type with %s is %s (expected %s): ordinary overloads of an enclosing scope disappear from the candidates (no ambiguity is reported, the answer depends on where the call sits) or pending declarations stay visible'
+                r8.fail('get_item/recourse-filter/%s' % label.replace(' ', '-'), mirq.site(b, bb) if via is None else mirq.site(g, via[0]), 'inside the body of a function, a parent overload of the same name and type with %s is %s (expected %s): ordinary overloads of an enclosing scope disappear from the candidates (no ambiguity is reported, the answer depends on where the call sits) or pending declarations stay visible'
                         % (label, 'hidden' if got else 'kept' if got is not None else 'undecided', 'hidden' if w else 'kept'))
     if not found:
-        r8.fail('anchor/get_item/filter', mirq.site(b, 0), 'the any / all test over the forward requirements of a parent overload was not found')
+        r8.fail('anchor/get_item/filter', mirq.site(g, 0), 'the any / all test over the forward requirements of a parent overload was not found')
     r8.need(4)
